@@ -27,6 +27,7 @@ from fractions import Fraction
 
 import vlib
 import translate_dispatch
+from props import c01
 
 LEVEL = "proof"
 RULE = ("string frames (2..8 columns, 16..2000 rows, cardinalities 1..n, empty strings, unicode, digit-only ids, special "
@@ -36,10 +37,14 @@ RULE = ("string frames (2..8 columns, 16..2000 rows, cardinalities 1..n, empty s
         "non-trivial = at least one compared row has a non-zero prescribed value (Constant: at least one row); "
         "distinct = distinct (frame, heuristic, mode, entry)")
 THEOREMS = ["C05_table", "C05_no_silent_constant", "C05_doc_names_nonvacuous", "C05_flag_only_randomized",
+            "C05_const_branch_iff", "C05_3mr_names_plain",
             "C05_codes_inj", "C05_codes_order", "C05_codes_dense", "C05_cats_distinct_values", "C05_orientation",
-            "C05_maxcov_exact", "C05_maxcov_prefix_refuted", "C05_maxcov_old_only_upper", "C05_rows", "C05_rows_complete"]
+            "C05_maxcov_exact", "C05_maxcov_prefix_refuted", "C05_maxcov_old_only_upper",
+            "C05_row_value", "C05_rows_scored", "C05_rows_constant", "C05_value_constant", "C05_value_plugin",
+            "C05_value_randomized", "C05_value_maxcov", "C05_oracles"]
 
-# what the property prescribes per name (independent of the generated dispatch)
+# the property's own wording per name; the class of every name is ALSO read from the generated dispatch (classify_names):
+# both must agree (obligation), and names the property does not word are classified by the dispatch alone
 TABLE = {
     "MI": "plugin64",
     "MI-numba": "plugin32",
@@ -466,24 +471,91 @@ def frame_key(names, cols):
     return json.dumps([names, cols], ensure_ascii=True)
 
 
-def model_eval(frames):
-    """frames: dict key -> {"cols": [...], "pairs": set((i, j))}.  -> key -> (codes per column, {(i,j): Fraction})"""
+# what the tags of Pipeline/RankGraph.v `scorer` mean to the harness (mirror of Pipeline/Scorers.v `sem`)
+def sem_of_tag(tag):
+    if not isinstance(tag, tuple):
+        return None
+    return {("SkMI",): "plugin64", ("NumbaMI", False): "plugin32", ("NumbaMI", True): "corr32", ("MaxCov",): "maxcov",
+            ("Pearson",): "pearson", ("AMI",): "ami", ("Const",): "const", ("Fallback",): "fallback",
+            ("Surrogate",): "surrogate"}.get(tag)
+
+
+NAME_CLASS = {}      # heuristic name -> {"sem", "const", "3mr", "source"}; filled once per run by classify_names
+
+
+def classify_names(names):
+    """semantic class of every heuristic name from the GENERATED dispatch / is_const_name / is_3mr_name, evaluated in Coq.
+    When the generated files do not build (translator refused), the property's own table is used so that the search for
+    a failing input can go on; that situation is already reported as a broken obligation."""
+    todo = [n for n in names if n not in NAME_CLASS]
+    if not todo:
+        return True
+    ok = True
+    try:
+        hdr = ("From Coq Require Import List NArith.\nFrom Outrank Require Import Pipeline.RankGraph Gen.Dispatch.\n"
+               "Import ListNotations.\nOpen Scope N_scope.")
+        okb, log = vlib.build(["Gen/Dispatch.vo"])
+        if not okb:
+            raise vlib.Broken("build:Gen/Dispatch.vo", log[-800:])
+        vals = vlib.coq_eval("C05n", hdr, ["(dispatch %s, is_const_name %s, is_3mr_name %s)" % ((vlib.strlit(n),) * 3)
+                                           for n in todo], shard=400)
+        for n, (tag, cb, mb) in zip(todo, vals):
+            if isinstance(tag, tuple) and len(tag) == 1 and tag[0] not in ("SkMI", "MaxCov", "Pearson", "AMI", "Const", "Fallback", "Surrogate"):
+                tag = None
+            NAME_CLASS[n] = {"sem": sem_of_tag(tag), "const": bool(cb), "3mr": bool(mb), "source": "Gen/Dispatch.v"}
+    except vlib.Broken:
+        ok = False
+        for n in todo:
+            NAME_CLASS[n] = {"sem": TABLE.get(n), "const": n == "Constant", "3mr": "3mr" in n, "source": "property table (fallback)"}
+    return ok
+
+
+def name_sem(h):
+    """class used for the expectation: the property's own wording where it names the heuristic, else the generated dispatch"""
+    return TABLE.get(h) or (NAME_CLASS.get(h) or {}).get("sem")
+
+
+def mi_cost(F, T):
+    n = len(F)
+    return n * (n + 2 * len(set(F)) + len(set(T))) + 2000
+
+
+HEADER2 = ("From Coq Require Import List NArith ZArith.\nFrom Outrank Require Import Pipeline.RankGraph Pipeline.Scorers.\n"
+           "Import ListNotations.\nOpen Scope N_scope.")
+
+
+def model_eval(frames, budget):
+    """frames: key -> {"cols", "pairs": set((i,j)), "mi": list of (f, t, flag) in priority order}.
+    -> key -> (codes, {(i,j): Fraction}, {(f,t,flag): term structure})   [term structures only within the Coq budget]"""
     big = [k for k in frames if frames[k]["cols"] and len(frames[k]["cols"][0]) > LARGE]
     keys = sorted((k for k in frames if k not in big), key=lambda k: -sum(len(c) * len(set(c)) for c in frames[k]["cols"]))
-    exprs = []
-    plist = []
+    exprs, plist, qlist = [], [], []
     for k in keys:
         fr = frames[k]
         pairs = sorted(fr["pairs"])
+        spent, qs, seenq = 0.0, [], set()
+        for q in fr["mi"]:
+            if q in seenq:
+                continue
+            c = mi_cost(fr["cols"][q[0]], fr["cols"][q[1]])
+            if spent + c > budget:
+                continue
+            seenq.add(q)
+            spent += c
+            qs.append(q)
         plist.append(pairs)
+        qlist.append(qs)
         cols = "[" + "; ".join(vlib.strlist(c) for c in fr["cols"]) + "]"
         ps = "[" + "; ".join("(%d, %d)" % p for p in pairs) + "]"
-        exprs.append("C05_enc (C05_model (%s, %s%%nat))" % (cols, ps))
-    vals = vlib.coq_eval("C05", HEADER, exprs, shard=1 if len(exprs) <= 48 else 2, jobs=12, timeout=1500) if exprs else []
+        qq = "[" + "; ".join("(%d, %d, %s)" % (f, t, "true" if fl else "false") for f, t, fl in qs) + "]"
+        exprs.append("C05_model2 (%s, %s%%nat, %s%%nat)" % (cols, ps, qq))
+    vals = vlib.coq_eval("C05", HEADER2, exprs, shard=1 if len(exprs) <= 60 else 2, jobs=12, timeout=1500) if exprs else []
     out = {}
-    for k, pairs, v in zip(keys, plist, vals):
-        codes, qs = v
-        out[k] = ([list(map(int, c)) for c in codes], {p: Fraction(int(q[0]), int(q[1])) for p, q in zip(pairs, qs)})
+    for k, pairs, qs, v in zip(keys, plist, qlist, vals):
+        codes, covs, terms = v
+        out[k] = ([list(map(int, c)) for c in codes],
+                  {p: Fraction(int(q[0]), int(q[1])) for p, q in zip(pairs, covs)},
+                  {q: c01._norm_terms(tm) for q, tm in zip(qs, terms)})
         # the Python mirror (used for the large-batch family) must agree with the Coq model wherever both are evaluated
         mirror = [py_codes(c) for c in frames[k]["cols"]]
         if mirror != out[k][0] or any(py_maxcov(mirror[i], mirror[j]) != q for (i, j), q in out[k][1].items()):
@@ -491,8 +563,18 @@ def model_eval(frames):
     model_eval.validated = getattr(model_eval, "validated", 0) + len(keys)
     for k in big:
         codes = [py_codes(c) for c in frames[k]["cols"]]
-        out[k] = (codes, {p: py_maxcov(codes[p[0]], codes[p[1]]) for p in frames[k]["pairs"]})
+        out[k] = (codes, {p: py_maxcov(codes[p[0]], codes[p[1]]) for p in frames[k]["pairs"]}, {})
     return out
+
+
+def model_row_pairs(jobs):
+    """jobs: list of (constb, [(i, j)...]) -> the (A, B) parts of the model's rows (Coq `row_pairs`), names = column indices"""
+    if not jobs:
+        return []
+    hdr = "From Coq Require Import List NArith.\nFrom Outrank Require Import Pipeline.RankGraph.\nImport ListNotations.\nOpen Scope N_scope."
+    exprs = ["row_pairs %s [%s]" % ("true" if cb else "false", "; ".join("([%d], [%d])" % p for p in ps)) for cb, ps in jobs]
+    vals = vlib.coq_eval("C05r", hdr, exprs, shard=60, jobs=8)
+    return [[(int(a[0]), int(b[0])) for a, b in v] for v in vals]
 
 
 def run_oracle(queries):
@@ -505,9 +587,17 @@ def run_oracle(queries):
 # --------------------------------------------------------------------------------------------------
 # judging
 
-def evaluate(cases, stats=None):
+def orientations(a, b, i, j, lbl):
+    """(input, conditioning) index pairs the property admits for a row (a, b)"""
+    if a == lbl or b == lbl:
+        return [(j, i)] if a == lbl else [(i, j)]
+    return [(i, j), (j, i)]
+
+
+def evaluate(cases, stats=None, budget=8e6):
     """-> list of verdicts {"bad": [...], "nontrivial": bool, "rows": int, "error": str|None}"""
     stats = stats if stats is not None else {}
+    classify_names(sorted({c["heuristic"] for c in cases}))
     # a case with compare_serial is also run with a one-worker pool; the two row multisets must agree
     runlist, twin_of = list(cases), {}
     for i, c in enumerate(cases):
@@ -528,20 +618,29 @@ def evaluate(cases, stats=None):
         if not fr.get("names") or fr.get("cols") is None:
             fr = {"names": c["names"], "cols": c["cols"]}
         key = frame_key(fr["names"], fr["cols"])
-        ent = frames.setdefault(key, {"cols": fr["cols"], "pairs": set()})
+        ent = frames.setdefault(key, {"cols": fr["cols"], "pairs": set(), "mi": [], "mi_late": []})
         idx = {nm: i for i, nm in enumerate(fr["names"])}
-        if TABLE.get(c["heuristic"]) == "maxcov":
-            for a, b, _ in r["triplets"]:
-                if a in idx and b in idx:
-                    i, j = idx[a], idx[b]
+        sem = name_sem(c["heuristic"])
+        for a, b, _ in r["triplets"]:
+            if a in idx and b in idx:
+                i, j = idx[a], idx[b]
+                if sem == "maxcov":
                     ent["pairs"].add((min(i, j), max(i, j)))
+                elif sem in ("plugin64", "plugin32", "corr32"):
+                    ors = orientations(a, b, i, j, c["label"])
+                    if sem != "corr32":
+                        ors = ors[:1] if len(ors) == 1 else [(min(i, j), max(i, j))]
+                    for f, t in ors:
+                        (ent["mi"] if (a == c["label"] or b == c["label"]) else ent["mi_late"]).append((f, t, sem == "corr32"))
         info.append((key, idx))
-    model = model_eval(frames)
+    for ent in frames.values():
+        ent["mi"] = ent["mi"] + ent.pop("mi_late")        # label pairs first when the Coq budget binds
+    model = model_eval(frames, budget)
 
     # library oracles, on the model's codes
     queries, qmap = [], {}
     for c, r, inf in zip(cases, res, info):
-        sem = TABLE.get(c["heuristic"])
+        sem = name_sem(c["heuristic"])
         if inf is None or sem not in ("pearson", "ami"):
             continue
         key, idx = inf
@@ -554,6 +653,19 @@ def evaluate(cases, stats=None):
                     qmap[qk] = len(queries)
                     queries.append({"kind": sem, "f": codes[i], "t": codes[j]})
     ovals = run_oracle(queries)
+
+    # the model's row (A, B) multisets for the selected combinations (Coq row_pairs)
+    rp_jobs, rp_of = [], {}
+    for ci, (c, r, inf) in enumerate(zip(cases, res, info)):
+        if inf is None or not r.get("selected"):
+            continue
+        idx = inf[1]
+        sel = r["selected"]
+        if any(len(p) != 2 or p[0] not in idx or p[1] not in idx for p in sel):
+            continue
+        rp_of[ci] = len(rp_jobs)
+        rp_jobs.append((NAME_CLASS[c["heuristic"]]["const"], [(idx[p[0]], idx[p[1]]) for p in sel]))
+    rp_vals = model_row_pairs(rp_jobs)
 
     verdicts = []
     for ci, (c, r, inf) in enumerate(zip(cases, res, info)):
@@ -580,9 +692,39 @@ def evaluate(cases, stats=None):
                              "trace": r.get("trace", "")[-800:]})
             continue
         key, idx = inf
-        codes, covs = model[key]
-        sem = TABLE.get(c["heuristic"])
+        codes, covs, terms = model[key]
+        sem = name_sem(c["heuristic"])
+        cls = NAME_CLASS[c["heuristic"]]
         lbl = c["label"]
+        # -- the row set: emitted (A, B) multiset = the model's rows over the combinations selected for scoring
+        if not r["triplets"]:
+            v["bad"].append({"clause": "rows are emitted for the evaluated pairs of the batch (none were)", "row": None,
+                             "impl": {"rows": 0, "selected": (r.get("selected") or [])[:6]}, "expected": "at least one row"})
+        if ci in rp_of:
+            stats["row_set_comparisons"] = stats.get("row_set_comparisons", 0) + 1
+            inv = {i: nm for nm, i in idx.items()}
+            want = Counter((inv[a], inv[b]) for a, b in rp_vals[rp_of[ci]])
+            got = Counter((a, b) for a, b, _ in r["triplets"])
+            if want != got:
+                v["bad"].append({"clause": ("Constant: one row (c1, c2, 0.0) per selected combination, not mirrored" if cls["const"] else
+                                            "every selected combination yields the row (A, B, s) and its mirror (B, A, s), nothing else"),
+                                 "row": None,
+                                 "impl": {"rows": sum(got.values()), "missing": sorted((want - got).items())[:6],
+                                          "unexpected": sorted((got - want).items())[:6]},
+                                 "expected": "%d rows (model row_pairs over the %d selected combinations)" % (sum(want.values()), len(r["selected"]))})
+        else:
+            stats["row_set_not_observable"] = stats.get("row_set_not_observable", 0) + 1
+        # -- the coding itself (opt-in observation of the frame handed to the scorer)
+        if r.get("codes"):
+            stats["codes_compared_cases"] = stats.get("codes_compared_cases", 0) + 1
+            for nm, i in idx.items():
+                got = r["codes"].get(nm)
+                if got is not None and got != codes[i]:
+                    k0 = next(k for k in range(len(got)) if k >= len(codes[i]) or got[k] != codes[i][k])
+                    v["bad"].append({"clause": "columns are category-coded: cell code = index in the code-point-sorted distinct values (cat.codes)",
+                                     "row": None, "impl": {"column": nm, "row_index": k0, "code": got[k0]},
+                                     "expected": {"code": codes[i][k0] if k0 < len(codes[i]) else None}})
+                    break
         seen = set()
         memo = {}
         allzero = True
@@ -603,27 +745,38 @@ def evaluate(cases, stats=None):
                 if not (isinstance(s, float) and s == 0.0):
                     v["bad"].append({"clause": "Constant scores are 0", "row": [a, b, s], "expected": 0.0})
                 continue
-            if sem is None:
+            if sem in (None, "fallback", "surrogate"):
                 continue
-            # orientations the property admits: the label is the conditioning side whenever it is in the pair
-            if a == lbl or b == lbl:
-                orients = [(j, i)] if a == lbl else [(i, j)]
-            else:
-                orients = [(i, j), (j, i)]
+            orients = orientations(a, b, i, j, lbl)
             exp = []
             for (f, t) in orients:
                 mk = (sem, f, t)
                 if mk not in memo:
                     F, T = codes[f], codes[t]
-                    if sem in ("plugin64", "plugin32"):
-                        e = plugin_mi(F, T)
-                        S = entropy(F) + hcond(F, T)
+                    if sem in ("plugin64", "plugin32", "corr32"):
+                        flag = sem == "corr32"
+                        if flag:
+                            e, S = corrected(F, T)
+                            what = "corrected score"
+                        else:
+                            e, S = plugin_mi(F, T), entropy(F) + hcond(F, T)
+                            what = "plug-in MI"
+                        # primary source: the Coq term structure of the MI model on the model's codes, evaluated by the float
+                        # mirror of eval_R; the exact-count reference above must agree with it
+                        tm = terms.get((f, t, flag)) or (terms.get((t, f, flag)) if not flag else None)
+                        if tm is not None:
+                            ec, Sc = c01.eval_float(tm)
+                            stats["mi_rows_from_coq_terms"] = stats.get("mi_rows_from_coq_terms", 0) + 1
+                            if abs(ec - e) > 1e-9 * max(1.0, Sc, S):
+                                raise vlib.Broken("cross-check:Coq MI term structure vs exact-count reference",
+                                                  "columns %d,%d flag %s: coq %r python %r" % (f, t, flag, ec, e))
+                            e, S = ec, max(S, Sc)
+                            what += " (MI model terms)"
+                        else:
+                            stats["mi_rows_from_python_reference_only"] = stats.get("mi_rows_from_python_reference_only", 0) + 1
                         tol = 1e-9 * max(1.0, abs(e)) if sem == "plugin64" else 32 * F32 * (S + 1e-6)
-                        memo[mk] = [(e, tol, "plug-in MI")]
-                    elif sem == "corr32":
-                        e, S = corrected(F, T)
-                        alts = [(e, 32 * F32 * (S + 1e-6), "corrected score")]
-                        if F != T and same_partition(F, T):
+                        alts = [(e, tol, what)]
+                        if flag and F != T and same_partition(F, T):
                             # same partition, different code vectors: whether the self-pair rule applies depends on
                             # the (injective) coding, which the MI family leaves free -> both values admitted
                             h = entropy(F)
@@ -644,8 +797,10 @@ def evaluate(cases, stats=None):
             if any(isinstance(e, float) and abs(e) > 1e-12 for e, _, _ in exp):
                 v["nontrivial"] = True
             if any(isinstance(e, str) and e.startswith("oracle-error") for e, _, _ in exp):
-                # the library itself refuses these codes: the implementation must have failed too; it did not
+                # the library itself refuses these codes, yet the implementation produced a score with the same library
                 stats["oracle_errors"] = stats.get("oracle_errors", 0) + 1
+                v["bad"].append({"clause": clause_of(sem, a, b, lbl) + " (the library rejects the model's codes of these columns, the implementation returned a score)",
+                                 "row": [a, b, s], "expected": [[e, what] for e, _, what in exp]})
                 continue
             if not any(close(s, e, tol) for e, tol, _ in exp):
                 v["bad"].append({"clause": clause_of(sem, a, b, lbl), "row": [a, b, s],
@@ -660,15 +815,15 @@ def evaluate(cases, stats=None):
                 e0, t0, _ = memo[(sem, i, j)][0]
                 stats["nonlabel_rows_first_is_input"] = stats.get("nonlabel_rows_first_is_input", 0) + (1 if close(s, e0, t0) else 0)
                 stats["nonlabel_rows"] = stats.get("nonlabel_rows", 0) + 1
-        if sem is None and v["rows"] and allzero:
-            # a documented name outside the property's table: it must at least not be the silent constant
+        if sem in (None, "fallback") and v["rows"] and allzero:
+            # a documented name that reaches the warning + constant branch (or an unknown class): silent constant
             best = 0.0
             for i in range(len(codes)):
                 for j in range(i):
                     best = max(best, plugin_mi(codes[i], codes[j]))
             if best > 0.05:
                 v["bad"].append({"clause": "a documented heuristic name silently degrades to a constant score",
-                                 "row": r["triplets"][0], "expected": "non-constant scores"})
+                                 "row": r["triplets"][0], "expected": "non-constant scores (dispatch class: %s)" % cls})
             v["nontrivial"] = True
     return verdicts
 
@@ -726,21 +881,30 @@ def _check(run, replay):
     if not ok_t:
         run.violation("broken-obligation", "translator refused: " + "; ".join(msgs), found_input=False, extra=msgs)
     run.cov["documented_names"] = doc
-    surrogate = [d for d in doc if "surrogate" in d]
-    run.cov["documented_surrogate_names_outside_quantifier"] = surrogate
 
-    # 2. model + proofs
-    model_ok, log = vlib.build(["Pipeline/RankGraph.vo"])
-    run.oblige("build:model Pipeline/RankGraph.vo", model_ok, "" if model_ok else log[-1500:])
+    # 2. model + proofs (Scorers.v imports the MI model of C01-C03 read-only)
+    model_ok, log = vlib.build(["Pipeline/Scorers.vo"])
+    run.oblige("build:model Pipeline/RankGraph.vo, Pipeline/Scorers.vo", model_ok, "" if model_ok else log[-1500:])
     if not model_ok:
-        raise vlib.Broken("build:Pipeline/RankGraph.vo", log)
-    vlib.standard_proof_phase(run, ["Props/C05.vo"], "Outrank.Props.C05", THEOREMS)
+        raise vlib.Broken("build:Pipeline/Scorers.vo", log)
+    vlib.standard_proof_phase(run, ["Props/C05.vo"], "Outrank.Props.C05", THEOREMS, allowed=vlib.STD_REAL_AXIOMS)
 
-    # 3. correspondence
+    # 3. correspondence.  Names to run: those the property words + every documented name that does not reach a surrogate model
+    #    (a documented name the generated dispatch sends to Fallback IS run: it is the failing input of C05_no_silent_constant)
+    NAME_CLASS.clear()
+    from_gen = classify_names(sorted(set(TABLE) | set(doc)))
+    run.oblige("model-eval:dispatch / is_const_name / is_3mr_name of every name (generated, vm_compute)", from_gen,
+               "" if from_gen else "Gen/Dispatch.v does not build; the property's own table is used for the failing-input search")
+    run.cov["name_classes"] = {n: NAME_CLASS[n] for n in sorted(NAME_CLASS)}
+    disagree = {n: (NAME_CLASS[n]["sem"], TABLE[n]) for n in TABLE if NAME_CLASS[n]["sem"] != TABLE[n]}
+    run.oblige("dispatch class = the property's wording for the heuristics it names (C05_table)", not disagree, str(disagree))
     heur = list(TABLE)
     for d in doc:
-        if d not in TABLE and "surrogate" not in d:
+        if d not in TABLE and NAME_CLASS[d]["sem"] != "surrogate":
             heur.append(d)
+    run.cov["documented_names_reaching_the_surrogate_scorer_not_run"] = [d for d in doc if NAME_CLASS[d]["sem"] == "surrogate"]
+    silent = [d for d in doc if NAME_CLASS[d]["sem"] == "fallback"]
+    run.cov["documented_names_dispatched_to_fallback"] = silent
     if replay is not None:
         cases = [replay["case"]]
     else:
@@ -762,8 +926,16 @@ def _check(run, replay):
                 cases.append(c)
         cases.extend(pool_cases(run.rng, run.tier))
         cases.extend(large_cases(run.rng, run.tier))
+        # the coded frame handed to the scorer is observed on one case per frame (in-process pools, <= 2000 rows)
+        seen_frames = set()
+        for c in cases:
+            k = id(c["cols"])
+            if k not in seen_frames and len(c["cols"][0]) <= 2000 and (c.get("pool") or {}).get("kind", "fake") != "real" \
+                    and name_sem(c["heuristic"]) not in ("const",):
+                seen_frames.add(k)
+                c["record_codes"] = True
     stats = {}
-    verdicts = evaluate(cases, stats)
+    verdicts = evaluate(cases, stats, budget=8e6 if run.tier == "quick" else 2e7)
 
     hist = {"pool": {}, "rows_bucket": {}, "ncols": {}, "heuristic": {}, "mode": {}, "entry": {}, "max_cardinality_bucket": {},
             "column_kinds": {}, "impl_errors": 0, "rows_compared": 0}
@@ -839,7 +1011,7 @@ def _check(run, replay):
         "for a pair without the label either column may be the conditioning side; for MI-numba-randomized on two different "
         "columns inducing the same partition both the corrected value and the entropy are admitted (coding-dependent self-pair test)",
         "mi_stratified_sampling_ratio = 1.0 and every pair is evaluated (cap 2^15); sub-sampling is C04, pair selection is C06",
-        "surrogate-* / *-prior names are outside the property's quantifier (listed in documented_surrogate_names_outside_quantifier)",
+        "documented names that reach the surrogate scorer are covered by C05_no_silent_constant but not run (cross-validated models, no prescribed value)",
     ]
     run.trusted += [
         "tools/translate_dispatch.py (fail-closed ast walker; text -> Gen/Dispatch.v, Gen/DocNames.v)",
